@@ -296,18 +296,18 @@ def run(tier, seed):
                  "file names with spaces, dots, digits, tabs, non-ASCII, header-like and colon-bearing messages, near-white-space bytes at message edges, messages longer than bufio's first buffer; "
                  "the decoder is fed through readers rotating over whole / one byte / half / data-with-EOF / k bytes per read (k from 2 to 4097); "
                  "a sweep of read boundaries over every offset of a long header (first entry of 128-off bytes, reader of 64/32/16 bytes); streams of 200-1700 small entries (up to ~70 KB, beyond bufio's 64 KiB; thorough: 5000); "
-                 "plus the known ambiguous shape (class witness). non-trivial = at least two entries, or a header-like message, or goroutine omitted; distinct by stream. "
+                 "file names of 80-200 bytes with nine-digit line numbers (headers of every length around 128 bytes); plus the known ambiguous shape (class witness). non-trivial = at least two entries, or a header-like message, or goroutine omitted; distinct by stream. "
                  "raw: one perturbation of a valid stream (30 kinds: separators, impossible dates, truncation, garbage, CRLF, out-of-range numbers), decoder vs model; distinct by stream. "
                  "probe: 20 kinds of entries outside the guards (white space at message edges, colon/empty/newline file names, negative numbers, years outside 2000-2068, multi-line messages), model agreement only. "
                  "hist: real main/secondary logger in a fresh directory, LogFileMaxSize in {64..4096} around the measured header size, entry sizes steered to the rotation threshold +-2 using the real syncBuffer.nbytes, "
-                 "threshold changes, snapshots (flush, list, decode every file), SetSync(true) followed by a flush and a snapshot with no write in between (and SetSync(false) back), looks at the files without a flush while in sync mode, GC runs with bounds at the cumulative sizes +-1 / 0 / MaxInt64, planted older files (empty, zero-filled or holding formatted messages of their own; named after the real or after another host/user and with this or another process id in the name, so that name order and time-stamp order differ and leftovers of other processes are present), FetchEntriesFromFiles on the main logger; gc-only: planted file sets + GC; reopen: the file is closed and written to again at once (same second: create() generates the name the file already has), only while the newest name is not ahead of the clock; the model runs with the observed file time stamps as its clock. "
+                 "threshold changes, snapshots (flush, list, decode every file), SetSync(true) followed by a flush and a snapshot with no write in between (and SetSync(false) back), looks at the files without a flush while in sync mode, GC runs with bounds at the cumulative sizes +-1 / 0 / MaxInt64, planted older files (empty, zero-filled or holding formatted messages of their own; named after the real or after another host/user and with this or another process id in the name, so that name order and time-stamp order differ and leftovers of other processes are present), FetchEntriesFromFiles on the main logger; a third of the histories run under another user name (periods, backslashes: 'jane.doe', 'dom\\jane') and the host name with a domain, set through the hook VerifSetHostUser the way init() computes them; half of the secondary-logger histories create the logger while the main logger's file threshold is WARNING/ERROR/FATAL (flag log-file-verbosity); gc-only: planted file sets + GC; reopen: the file is closed and written to again at once (same second: create() generates the name the file already has), only while the newest name is not ahead of the clock; the model runs with the observed file time stamps as its clock. "
                  "non-trivial = at least two files at the end or a GC run; distinct by operation list. "
                  "multi: the main logger and one or two secondary loggers (the name of one a prefix of the other's, as the main logger's program name is of both) plus sometimes a program without logger whose name extends the main logger's, all in one directory, "
                  "older files of any of them planted; interleaved logging with sizes steered to each logger's threshold, GC runs of one logger with small bounds / bounds at its own cumulative sizes +-1, snapshots by scanning the directory and parsing names (not through listLogFiles), "
                  "what each logger's listLogFiles returns, FetchEntriesFromFiles at the end; non-trivial = at least two loggers wrote and a GC ran."),
         "samples": summary["samples"],
         "distribution": {k: summary[k] for k in ("codec", "codec_entries", "codec_classes", "raw", "raw_kinds", "probe",
-                                                  "local_zone_offset_s", "hist", "hist_error", "hist_discarded_goid_glitch", "hist_log_ops", "hist_gc_ops", "hist_files_at_end", "hist_buffer_sized_entry", "hist_own_directory_loggers", "api", "api_calls", "hist_close_reopen_ops", "hist_reopens_under_same_name", "codec_readers", "codec_longest_stream",
+                                                  "local_zone_offset_s", "hist", "hist_error", "hist_discarded_goid_glitch", "hist_log_ops", "hist_gc_ops", "hist_files_at_end", "hist_other_user_name", "hist_main_file_threshold_raised", "hist_buffer_sized_entry", "hist_own_directory_loggers", "api", "api_calls", "hist_close_reopen_ops", "hist_reopens_under_same_name", "codec_readers", "codec_longest_stream",
                                                   "multi", "multi_log_ops", "multi_gc_ops", "calibration")},
         "outside_guard_probes": {"kinds": summary["probe_kinds"], "real_roundtrip_failures": summary["probe_roundtrip_failures"]},
         "traces_validated_against_impl": summary["hist"] + summary["multi"],
